@@ -60,7 +60,7 @@ CHECKS = {
                   "command frames are the reference frames of that very login's session id (C02); `locality`/`no_leak`: for EVERY "
                   "schedule of ANY number of instances an instance's behaviour is its own sequential run (induction over the schedule). "
                   "PARTIAL: that the Python objects share nothing is checked by correspondence on histories (all ordered pairs of the 15 "
-                  "operation kinds, sequences to length 20 with fresh session ids and an advancing clock, two instances under forced "
+                  "operation kinds, sequences to length 20 with fresh session ids and an advancing clock - also with logins that are not answered or answered short inside a sequence -, two instances under forced "
                   "interleavings); the asyncio scheduler itself is not modelled.",
              note="Trusted: Lean kernel (propext, Classical.choice, Quot.sound); deterministic scheduler on in-memory streams in place "
                   "of real reply delays; same-instance concurrency is outside the property.",
@@ -70,7 +70,8 @@ CHECKS = {
                   "else (parsers shown to fail only with KeyError/ValueError, which the API layer converts; the query frame can be built "
                   "after ANY login reply); successful iff reply non-empty; an empty login reply makes state queries and all type-2 "
                   "operations raise RuntimeError with only the login frame written. Fault enumeration on the real API: every operation "
-                  "x every step x {empty, every prefix, random 1..1024 bytes, corrupted fields} compared with the model and judged by Spec.c09ok.",
+                  "x every step x {empty, every prefix, random 1..1024 bytes, corrupted fields} compared with the model and judged by Spec.c09ok; "
+                  "histories on one connection: a fault after a success, and the SAME bad reply twice in a row after a good one.",
              note="Trusted: Lean kernel (propext, Classical.choice, Quot.sound), CPython exception classes of int()/dict lookup/decode/"
                   "datetime.time as modelled (validated by the fault streams), scripted reader.",
              tech="Lean 4 proof (totality of parsers for all byte strings) + fault enumeration correspondence + Spec judge",
@@ -143,8 +144,13 @@ CHECKS = {
                   "toggle remote must change state, temperature clamped into the set's range, the BEST KEY of the request, KeyError when "
                   "nothing is stored there); bestKey_isBest (declarative: most specific stored candidate, every more specific one absent); "
                   "capabilities (modes, temperature range, toggle, separate swing are those present in the set, via invariants of the "
-                  "capability fold); payload (four zero bytes + text, LE16 length) for every text length. Correspondence on generated IR sets "
-                  "loaded through the real classes (and the manager + JSON), Spec judge on every build.",
+                  "capability fold); payload (four zero bytes + text, LE16 length) for every text length; the remote MANAGER as a state machine "
+                  "over a file system whose database files are written, replaced and removed and any number of manager objects "
+                  "(Model.Manager): manager_first_load, manager_fresh_reads_current, manager_stable (the same object for ever), "
+                  "manager_isolated / manager_answer_independent, manager_returns_stored (for every history every remote handed out is "
+                  "mkRemote of a set some version of the manager's OWN file held under that id). Correspondence on generated IR sets "
+                  "loaded through the real classes and on manager histories with real files (object identity and a command per answer), "
+                  "Spec judge on every build and on every manager answer.",
              note="Trusted: Lean kernel (propext, Classical.choice, Quot.sound), generated command tables, re.match/isdigit/json as "
                   "modelled for ASCII; requested temperature |t| <= 100 in build_spec (domain 0..60).",
              tech="Lean 4 proof (fold invariants, recursion on key prefixes) + differential correspondence + Spec judge",
@@ -167,7 +173,9 @@ CHECKS = {
                   "stop_releases, failed_start_clean (a failed start changes nothing and leaves no port held), start_fails_iff, "
                   "stop_idempotent, restartable; code_refines / code_inv / code_stop_closes: a second model at the granularity of the code "
                   "(the `_transports` dictionary, the bind loop with `started_ports`, the rollback, stop's test) refines the abstract machine "
-                  "for every action sequence; foreign_is_invisible (what another bridge object does changes nothing). Configured port 0: "
+                  "for every action sequence; code_start_failing_at (a start that fails at ANY bind for ANY reason - the task cancelled while "
+                  "suspended there, an error of any class - leaves exactly what was open before and the flag as it was; exercised by cancelling "
+                  "a real start() at the k-th bind); foreign_is_invisible (what another bridge object does changes nothing). Configured port 0: "
                   "startZ_eq (configurations without port 0 are unaffected) and zero_port_leak - the OPEN finding F9 (start while running "
                   "with port 0 leaks a socket), printed as KNOWN-FINDING and listed in known_findings.json. What a theorem cannot carry (that closing a transport releases the OS port and that a bound "
                   "port receives datagrams) is observed by the correspondence on a REAL SwitcherBridge over loopback UDP after every action.",
